@@ -477,6 +477,11 @@ static ASMJIT_FAVOR_SIZE Error validate(InstDB::Mode mode, const BaseInst& inst,
           reg_mask = 0;
         }
 
+        // Instructions that use TSIB (AMX) require SIB byte, which rules out RIP-relative addressing.
+        if (common_info.is_tsib_op() && (base_type == RegType::kPC || m.addr_type() == Mem::AddrType::kRel)) {
+          return make_error(Error::kInvalidAddress);
+        }
+
         // There is only one address size per instruction - all memory operands (MOVS, CMPS, MOVDIR64B, ENQCMD) have to
         // use general purpose registers of the same size.
         if (!m.is_reg_home()) {
